@@ -323,7 +323,7 @@ package orda
 
 //@ func (*listSnapshot).updateLocal
 //@   mode math
-//@   props C04 C02 C03
+//@   props C04 C02 C03 C01
 //@   dispatch timedType : *timedNode
 //@   requires linkWF(its) && indexWF(its) && keyTie(its) && valuesWF(its) && validTS(ts)
 //@   requires pos >= 0 && len(values) >= 1 && pos + len(values) <= its.size && its.size < 4611686018427387904 && (forall v in values :: v != nil)
@@ -826,25 +826,25 @@ package orda
 // ---------------------------------------------------------------------------------------
 //@ func (*jsonArray).insertCommon
 //@   bounded doctree json values are outside the List contracts (stated for *timedNode values)
-//@   props C01 C02 C03 C04
+//@   props C01 C02 C03 C04 C19
 //@ func (*jsonArray).deleteLocal
 //@   bounded doctree json values are outside the List contracts (stated for *timedNode values)
-//@   props C01 C03 C04
+//@   props C01 C03 C04 C19
 //@ func (*jsonArray).deleteRemote
 //@   bounded doctree json values are outside the List contracts (stated for *timedNode values)
-//@   props C01 C02 C04
+//@   props C01 C02 C04 C19
 //@ func (*jsonArray).updateLocal
 //@   bounded doctree json values are outside the List contracts (stated for *timedNode values)
-//@   props C01 C02 C03 C04
+//@   props C01 C02 C03 C04 C19
 //@ func (*jsonArray).updateRemote
 //@   bounded doctree json values are outside the List contracts (stated for *timedNode values)
-//@   props C01 C02 C04
+//@   props C01 C02 C04 C19
 //@ func (*jsonObject).putCommon
 //@   bounded doctree json values are outside the Map contracts (stated for *timedNode values)
-//@   props C01 C02 C03
+//@   props C01 C02 C03 C19
 //@ func (*jsonObject).deleteCommonInObject
 //@   bounded doctree json values are outside the Map contracts (stated for *timedNode values)
-//@   props C01 C02 C03
+//@   props C01 C02 C03 C19
 
 // PatchByJSON executes the edit script that the jsondiff library computes; what that library returns is not stated by
 // any contract within reach, so the clause "the document equals the target afterwards" is checked by a bounded
@@ -900,3 +900,46 @@ package orda
 //@   ensures[a-remove-of-a-missing-key-is-refused-and-changes-nothing] op.(*operations.RemoveOperation) && !old(live(msnap(its), remBody(op).Key)) ==> result1 != nil && msnap(its).Size == old(msnap(its).Size)
 //@   ensures[another-kind-of-operation-is-refused] !op.(*operations.PutOperation) && !op.(*operations.RemoveOperation) ==> result1 != nil
 //@   modifies *
+
+// ---------------------------------------------------------------------------------------
+// Map API (C03, C02): invalid arguments are refused without issuing anything; every accepted call issues exactly
+// one operation (a put of an equal value is still a put: its timestamp decides later conflicts).
+// ---------------------------------------------------------------------------------------
+//@ pred mapTxAPI(m *ordaMap) = m.datatype != nil && m.SnapshotDatatype != nil && m.datatype.WiredDatatype != nil && m.datatype.WiredDatatype.TransactionDatatype != nil && datatypes.txWF(m.datatype.WiredDatatype.TransactionDatatype) && m.SnapshotDatatype.Snapshot != nil && m.SnapshotDatatype.Snapshot.(*mapSnapshot) && m.SnapshotDatatype.BaseDatatype != nil && (m.datatype.TxCtx != nil ==> allocated(m.datatype.TxCtx)) && datatypes.rollbackSound()
+//@ pred mapTxOK(m *ordaMap) = (!(m.datatype.WiredDatatype.TransactionDatatype.isLocked && m.datatype.WiredDatatype.TransactionDatatype.txCtx == m.datatype.TxCtx) ==> !m.datatype.WiredDatatype.TransactionDatatype.isLocked) && (m.datatype.WiredDatatype.TransactionDatatype.isLocked && m.datatype.WiredDatatype.TransactionDatatype.txCtx == m.datatype.TxCtx ==> datatypes.opsIDed(m.datatype.WiredDatatype.TransactionDatatype.txCtx.opBuffer))
+
+//@ func (*ordaMap).Put
+//@   mode math
+//@   props C03 C02
+//@   requires mapTxAPI(its) && mapTxOK(its)
+//@   ensures[empty-key-and-null-value-are-refused-and-issue-nothing] key == "" || value == nil ==> result1 != nil && G.sentences == old(G.sentences)
+//@   ensures[an-accepted-put-is-issued-as-one-operation] key != "" && value != nil ==> G.sentences == old(G.sentences) + 1
+//@   modifies *
+
+//@ func (*ordaMap).Remove
+//@   mode math
+//@   props C03 C02
+//@   requires mapTxAPI(its) && mapTxOK(its)
+//@   ensures[an-empty-key-is-refused-and-issues-nothing] key == "" ==> result1 != nil && G.sentences == old(G.sentences)
+//@   ensures[an-accepted-remove-is-issued-as-one-operation] key != "" ==> G.sentences == old(G.sentences) + 1
+//@   modifies *
+
+// List API (C03): an invalid position / range or a null value is refused and issues nothing; an accepted call issues
+// exactly one operation.
+//@ func (*list).InsertMany
+//@   mode math
+//@   props C03
+//@   requires listAPI(its) && listTxOK(its)
+//@   ensures[an-invalid-position-is-refused-and-issues-nothing] !(pos >= 0 && pos <= old(its.SnapshotDatatype.Snapshot.(as *listSnapshot).size)) ==> result1 != nil && G.sentences == old(G.sentences)
+//@   ensures[a-null-value-is-refused-and-issues-nothing] !(forall v in values :: v != nil) ==> result1 != nil && G.sentences == old(G.sentences)
+//@   ensures[an-accepted-insert-is-issued-as-one-operation] pos >= 0 && pos <= old(its.SnapshotDatatype.Snapshot.(as *listSnapshot).size) && (forall v in values :: v != nil) ==> G.sentences == old(G.sentences) + 1
+//@   modifies *
+
+//@ func (*list).Update
+//@   mode math
+//@   props C03
+//@   requires listAPI(its) && listTxOK(its)
+//@   ensures[an-invalid-range-is-refused-and-issues-nothing] !(pos >= 0 && len(values) >= 1 && pos < old(its.SnapshotDatatype.Snapshot.(as *listSnapshot).size) && len(values) <= old(its.SnapshotDatatype.Snapshot.(as *listSnapshot).size) - pos) ==> result1 != nil && G.sentences == old(G.sentences)
+//@   ensures[a-null-value-is-refused-and-issues-nothing] !(forall v in values :: v != nil) ==> result1 != nil && G.sentences == old(G.sentences)
+//@   modifies *
+
